@@ -406,7 +406,7 @@ def case_coq(cid, rec, N):
         C.cbool(rec["uncompute"]), rets, C.clist(orc), C.cbool(raised), gates, nq, qmap)
 
 
-HEADER = (C.COQ_HEADER + "From QV Require Import Bexp BexpTT Circ Compiled M_Compiler Chk_Compiler.\n"
+HEADER = (C.COQ_HEADER + "From QV Require Import Bexp BexpTT Circ Compiled M_Compiler P_Compiler Chk_Compiler.\n"
           "Local Open Scope nat_scope.\n")
 
 
@@ -419,7 +419,8 @@ def case_file(chunk):
             terms.append(case_coq(cid, rec, N))
         except SerError as e:
             unmod.append((cid, str(e)))
-    body = "Definition cs : list ccase := %s.\nEval vm_compute in (failing_cases cs).\n" % C.clist(terms)
+    body = ("Definition cs : list ccase := %s.\nEval vm_compute in (failing_cases cs).\n"
+            "Eval vm_compute in (class_members cs).\n" % C.clist(terms))
     return HEADER + N.header() + body, unmod
 
 
@@ -495,15 +496,16 @@ def collect(tier, seed, tasks=None):
     t1 = time.time()
     out = C.run_cases("c02_model", files)
     t_coq = time.time() - t1
-    coq_errors, failing = [], {}
+    coq_errors, failing, in_class = [], {}, set()
     for name, (rc, so, se) in out.items():
         if rc != 0:
             coq_errors.append(dict(file=name, error=(so + se)[-1500:]))
             continue
         vals = C.parse_results(so)
-        if len(vals) != 1:
+        if len(vals) != 2:
             coq_errors.append(dict(file=name, error="no result printed: " + so[-500:]))
             continue
+        in_class.update(C.parse_N_list(vals[1]))
         nums = C.parse_N_list(vals[0])
         for j in range(0, len(nums), 3):
             failing[nums[j]] = (nums[j + 1], nums[j + 2])
@@ -532,6 +534,10 @@ def collect(tier, seed, tasks=None):
         stats["gates"] += len(rec.get("gates", []))
         if rec.get("or_table"):
             stats["with_nary_or"] += 1
+        if cid in in_class:
+            stats["in_theorem_class"] += 1
+            stats["in_theorem_class:" + str(task.get("origin"))] += 1
+            stats["in_theorem_class_uncompute_" + ("on" if rec.get("uncompute") else "off")] += 1
     notes = []
     if coq_errors:
         notes.append("coqc failed on some case files")
